@@ -264,7 +264,8 @@ def dataflow_claims(a):
                     if isinstance(fn_ast, ast.Lambda):
                         continue
                     fs = anno.getanno(fn_ast, annos.NodeAnno.ARGS_AND_BODY_SCOPE)
-                    clos |= {_qn(q) for q in (fs.read - fs.bound)}
+                    # generous upper bound of the closure term (the monitor decides soundness; see Liveness.tla)
+                    clos |= {_qn(q) for q in (fs.read - (fs.bound - fs.nonlocals))}
             else:
                 gen, kill, clos = set(), set(), set()
             o['leq'].append(dict(inn=sorted(_qn(q) for q in an.in_[cn]), out=sorted(_qn(q) for q in an.out[cn]),
